@@ -96,7 +96,8 @@ claim("C06",
       "DESIGN.md section 6 C06")
 claim("C08",
       "Theorems (Coq, unbounded, exact rationals): the last cumulative boundary equals the table width so every row "
-      "ends at twip(col_width); each boundary is the rounding of its exact proportional position and rounding is within "
+      "ends at twip(col_width) - C08_rows_right_edge states it of the RENDERED rows (every row table_encode renders from "
+      "col_widths(rel, W) with one value per relative width has its last cell at twip W; every group-heading row too); each boundary is the rounding of its exact proportional position and rounding is within "
       "half a twip (widths proportional to within one twip); twip depends only on the value of the rational. Against the "
       "implementation: \\cellx of every parsed row (headers, spanning rows, data, footnote/source tables, multi-section) vs "
       "twip(col_width), data boundaries vs exact proportional positions, inherited headers cell-by-cell vs data rows, "
